@@ -422,21 +422,31 @@ void staticAnalyticDiff(verif::Run& run, const std::vector<Tree>& trees, const C
     }
 }
 
-// run fn in a forked child (the code under test may abort); returns 0 ok, 1 the child's oracles failed, 2 the child crashed
-int isolated(verif::Run& run, const std::function<void()>& fn, int& sig) {
+// run fn in a forked child (the code under test may abort).  Violations found by the child's oracles are passed back and
+// recorded in this process; returns 0 if the child ended normally, 2 if it was killed by a signal.
+int isolated(verif::Run& run, const std::function<void()>& fn, const std::function<std::string()>& rp, int& sig) {
     fflush(stdout); fflush(stderr);
+    int fds[2]; if (pipe(fds) != 0) { run.harnessError("pipe failed"); return 0; }
     pid_t p = fork();
     if (p == 0) {
+        close(fds[0]);
         if (!run.verbose) { int fd = open("/dev/null", O_WRONLY); if (fd >= 0) { dup2(fd, 2); } }
         run.acc = verif::Acc();
-        int rc = 0;
-        try { fn(); } catch (...) { rc = 1; }
-        if (!run.acc.violCountByKey.empty()) rc = 1;
-        _exit(rc);
+        try { fn(); } catch (const std::exception& e) { run.violation("uncaught-exception/isolated-case", e.what(), ""); }
+        std::string out;
+        for (auto& v : run.acc.viols) out += verif::recEscape(v.key) + "\t" + verif::recEscape(v.what) + "\n";
+        size_t off = 0; while (off < out.size()) { ssize_t w = write(fds[1], out.data() + off, out.size() - off); if (w <= 0) break; off += (size_t)w; }
+        _exit(0);
     }
+    close(fds[1]);
+    std::string in; char buf[4096]; ssize_t r;
+    while ((r = read(fds[0], buf, sizeof buf)) > 0) in.append(buf, (size_t)r);
+    close(fds[0]);
     int st = 0; waitpid(p, &st, 0);
+    std::istringstream is(in); std::string l;
+    while (std::getline(is, l)) { auto f = verif::splitTabs(l); if (f.size() >= 2) { run.acc.transitions++; run.violation(verif::recUnescape(f[0]), verif::recUnescape(f[1]), rp()); } }
     if (WIFSIGNALED(st)) { sig = WTERMSIG(st); return 2; }
-    return WEXITSTATUS(st) ? 1 : 0;
+    return 0;
 }
 
 }  // namespace
@@ -491,16 +501,22 @@ int main(int argc, char** argv) {
         if (getenv("C23_TRACE")) { fprintf(stderr, "CASE %lld %s\n", (long long)i, where.c_str()); fflush(stderr); }
         int64_t before = run.acc.counters["returns"];
         const Tree& tr = (c.vec ? treesV : treesR)[c.tree];
-        if (c.wrap == W_DIFF && tr.depth == 0) {
-            // the operand supplies its own derivative: value checked statically; the simulation runs in a child process because
-            // Differentiate::Implementation::realizeMeasureAccelerationVirtual() touches its (unallocated) auto-update variable
-            if (c.integ == 0 && c.grid == 0 && c.hist == 0) { if (c.vec) staticAnalyticDiff<Vec3>(run, treesV, c, where); else staticAnalyticDiff<Real>(run, treesR, c, where); }
+        const bool analyticDiff = c.wrap == W_DIFF && tr.depth == 0;
+        const bool approxLow = (c.wrap == W_DIFFA || (c.wrap == W_DIFF && tr.depth > 0)) && !tr.hasTime && !tr.hasSin;
+        if (analyticDiff || approxLow) {
+            // Run in a child process because the code under test may abort:
+            //  * operand supplies its own derivative: Differentiate::Implementation::realizeMeasureAccelerationVirtual() touches its
+            //    (unallocated) auto-update variable; the value is therefore checked statically (no realize(Acceleration));
+            //  * approximation over an operand that depends on Topology/Model stage only (Constants, Variables): the auto-update
+            //    variable is allocated with invalidates = operand.getDependsOnStage(), i.e. Topology or Model.
+            if (analyticDiff && c.integ == 0 && c.grid == 0 && c.hist == 0) { if (c.vec) staticAnalyticDiff<Vec3>(run, treesV, c, where); else staticAnalyticDiff<Real>(run, treesR, c, where); }
             int sig = 0;
-            int rc = isolated(run, [&] { if (c.vec) runCase<Vec3>(run, treesV, c, where); else runCase<Real>(run, treesR, c, where); }, sig);
             auto rp = [&] { return run.replayHeader() + "case=" + where + "\n"; };
+            int rc = isolated(run, [&] { if (c.vec) runCase<Vec3>(run, treesV, c, where); else runCase<Real>(run, treesR, c, where); }, rp, sig);
             run.count("isolated-cases");
-            if (rc == 2) run.expect(false, "Differentiate-analytic/realize-Acceleration-aborts", [&] { return "simulating a system that contains Measure::Differentiate over an operand with its own derivative terminated with signal " + std::to_string(sig) + " at " + where; }, rp);
-            else run.expect(rc == 0, "Differentiate-analytic/oracle-failed-in-isolated-run", [&] { return where; }, rp);
+            if (rc == 2) run.expect(false, analyticDiff ? "Differentiate-analytic/realize-Acceleration-aborts" : "Differentiate-approx/operand-without-time-dependence/aborts",
+                                    [&] { return "the simulation terminated with signal " + std::to_string(sig) + " at " + where; }, rp);
+            else run.count(analyticDiff ? "isolated:analytic-ended-normally" : "isolated:approx-low-operand-ended-normally");
             run.evaluation(verif::hashStr(where), true);
             return;
         }
